@@ -293,6 +293,15 @@ def build_graph(
             f"trace_function returned {len(trace_outputs)} output(s), "
             f"but {len(outputs)} were declared in outputs."
         )
+    trace_outputs = list(trace_outputs)
+    seen_outputs: set[int] = set()
+    for i, returned_val in enumerate(trace_outputs):
+        producer = returned_val.producer()
+        if id(returned_val) in seen_outputs or producer is None or producer.graph is not subgraph:
+            # A value returned twice, a formal input or an outer-scope value: give this
+            # output a value of its own instead of renaming something the body does not own.
+            trace_outputs[i] = sub_builder.op.Identity(returned_val)
+        seen_outputs.add(id(returned_val))
     for returned_val, declared_val in zip(trace_outputs, outputs):
         if declared_val.name:
             returned_val.name = declared_val.name
